@@ -20,6 +20,7 @@ import (
 	stded "crypto/ed25519"
 	"encoding/json"
 	"fmt"
+	"math"
 	"math/big"
 	"os"
 	"reflect"
@@ -430,7 +431,37 @@ func marshalizerFor(delta int) marshal.Marshalizer {
 }
 
 func intercept(kind string, buff []byte, delta int) verdict {
-	m := marshalizerFor(delta)
+	return interceptWith(kind, buff, marshalizerFor(delta))
+}
+
+type wrapOp struct {
+	On int `json:"on"`
+	D  int `json:"d"`
+}
+
+type history struct {
+	Name string   `json:"name"`
+	Ops  []wrapOp `json:"ops"`
+	Use  int      `json:"use"`
+	Acc  bool     `json:"acc"`
+}
+
+// handleOf executes a wrapping history with the real constructor (handle 0 = the bare marshalizer, handle i =
+// NewSizeCheckUnmarshalizer(handle ops[i].on, ops[i].d)) and returns the handle the history says the consumer holds.
+// All operations are executed before the handle is used.
+func handleOf(h history) marshal.Marshalizer {
+	hs := []marshal.Marshalizer{&marshal.GogoProtoMarshalizer{}}
+	for _, op := range h.Ops {
+		d := uint32(op.D)
+		if op.D == -2 {
+			d = math.MaxUint32 // the specification's "Lenient"
+		}
+		hs = append(hs, marshal.NewSizeCheckUnmarshalizer(hs[op.On], d))
+	}
+	return hs[h.Use]
+}
+
+func interceptWith(kind string, buff []byte, m marshal.Marshalizer) verdict {
 	var d process.InterceptedData
 	var err error
 	switch kind {
@@ -553,6 +584,7 @@ type mutant struct {
 	Len     int             `json:"len"`
 	ObjSize int             `json:"objsize"`
 	Acc     map[string]bool `json:"acc"`
+	Hs      []history       `json:"hs"`
 }
 
 func replay(path string, tier string) {
@@ -569,7 +601,7 @@ func replay(path string, tier string) {
 	distinct := vtrace.NewDistinct()
 	malleable := vtrace.NewDistinct()
 	nviol := map[string]int{}
-	ndrift, evals, ncases := 0, 0, 0
+	ndrift, evals, ncases, nhist := 0, 0, 0, 0
 	drift := func(what string, detail interface{}) {
 		ndrift++
 		if ndrift <= 3 {
@@ -661,12 +693,46 @@ func replay(path string, tier string) {
 				}
 			}
 		}
+		// wrapping histories: the rule of a handle depends on its own chain only.  Malleability within the rule is already
+		// reported under the plain size checks; here only an acceptance BEYOND the handle's rule is reported.
+		for _, h := range mu.Hs {
+			key := in.Kind + "/" + strconv.Itoa(mu.Inst) + "/" + h.Name
+			if _, ok := canonHash[key]; !ok {
+				v := interceptWith(in.Kind, in.Canon, handleOf(h))
+				if !v.ctor || !v.valid {
+					vtrace.Broken("canonical instance rejected under wrapping history " + h.Name + ": " + in.Name)
+					return
+				}
+				canonHash[key] = v.hash
+			}
+			v := interceptWith(in.Kind, buff, handleOf(h))
+			evals++
+			nhist++
+			accepted := v.ctor && v.valid
+			enlarges := accepted && same && !h.Acc && !bytes.Equal(v.hash, canonHash[key])
+			if enlarges {
+				sig := "C18/" + in.Kind + "/" + cls + "+beyond-tolerance/" + h.Name
+				malleable.Add(sig)
+				nviol[sig]++
+				if nviol[sig] == 1 {
+					vtrace.Violation("C18", sig,
+						fmt.Sprintf("%s: under the marshalizer handle %q (wrapping history %v, handle %d) a second byte string (%s; %d bytes, canonical %d) that the handle's own size rule rejects is accepted, decodes to the same content and has a different hash",
+							in.Kind, h.Name, h.Ops, h.Use, cls, len(buff), len(in.Canon)),
+						M{"instance": in.Name, "canonical": vtrace.Hex(in.Canon), "second": vtrace.Hex(buff), "classes": mu.Classes,
+							"history": h})
+				}
+			} else if v.ctor != h.Acc {
+				drift(fmt.Sprintf("%s (%s, handle %s): specification says accepted=%v, real interceptor: constructor ok=%v valid=%v err=%q (len %d, Size() %d)",
+					in.Kind, cls, h.Name, h.Acc, v.ctor, v.valid, v.err, len(buff), mu.ObjSize), M{"mutant": json.RawMessage(raw)})
+			}
+		}
 		if li < 3 {
 			vtrace.Sample("C18", M{"type": in.Kind, "classes": mu.Classes, "bytes": vtrace.Hex(buff), "spec": M{"ok": mu.Ok, "deceq": mu.DecEq, "acc": mu.Acc}})
 		}
 	}
 	vtrace.Stat("mutants", ncases)
 	vtrace.Stat("evaluations", evals)
+	vtrace.Stat("handle_evaluations", nhist)
 	vtrace.Stat("distinct_type_class", distinct.Len())
 	vtrace.Stat("malleable_signatures", malleable.Len())
 	vtrace.Stat("drifts", ndrift)
